@@ -59,7 +59,7 @@ def run(ctx):
     ctx.notes["order_witness_checks"] = len(q)
     # random related deep pairs, both orders
     deep = [vlib.rand_shape(ctx.rng, 3) for _ in range(1500 if ctx.tier == "quick" else 30000)]
-    rel = [(s, vlib.mutate_shape(ctx.rng, s)) for s in deep]
+    rel = [(s, vlib.mutate_shape(ctx.rng, s)) for s in deep] + vlib.structured_pairs(stride=1 if ctx.tier != 'quick' else 3)[::2]
     l2 = []
     for a, b in rel:
         l2 += ["merger\t%s\t%s" % (sh_str(a), sh_str(b)), "merger\t%s\t%s" % (sh_str(b), sh_str(a)),
